@@ -134,6 +134,32 @@ def run(pid, tier):
             o.finding(kind='trace', op='fsample', ty=ev.get('ty'), wc=ev.get('wc'), res_class=res.split(' @ ')[0], event=ev,
                       signature='fsample:%s:%s' % (ev.get('ty'), res.split(' @ ')[0]))
         o.samples.append({'kind': 'float tree sample event', 'event': json.loads(tr.read_text().splitlines()[0])})
+        # exact induced law with float weights: interval lengths of the one-word map word -> index against weight / total
+        fl = wd / 'tree_flaw.ndjson'
+        s2 = rdv(['ftree-drive', '--seed', sd, '--count', 300 if not thorough else 5000, '--out', fl])
+        r2 = tlc('TraceFloatLaw', 'TraceFloatLaw.cfg', pid, 'trace_flaw', trace_mode=True, env={'TRACE': fl}, timeout=3000, heap='4g')
+        require_ok(r2, 'TraceFloatLaw')
+        if r2.rejected or r2.violated:
+            raise ToolError('float law trace not consumed: %s' % (r2.rejected or r2.violated))
+        o.add_tlc(r2, 'TraceFloatLaw: %d float trees (exact interval lengths vs weight / total)' % s2['events'])
+        o.traces += s2['events']
+        for (ln, ev) in parse_bad(r2.out):
+            res = str(ev.get('res'))
+            if res.startswith('Panic'):
+                o.finding(kind='trace', op='fsample', ty=ev.get('ft'), wc=None, res_class=res.split(' @ ')[0], event={k: v for k, v in ev.items() if k not in ('len', 'wq')},
+                          signature='fsample:%s:%s' % (ev.get('ft'), res.split(' @ ')[0]))
+            else:
+                # label only: which clause of the rule the event misses (a zero weight with a non-empty interval, or the proportionality itself)
+                zr = [k for k in range(len(ev.get('wq', []))) if ev['wq'][k] == [0] and ev['len'][k] != [0]]
+                tol = (64 - 19) if ev.get('ft') == 'f32' else (64 - 40)
+                def val(l):
+                    return sum(x << (14 * i) for i, x in enumerate(l))
+                W = sum(val(w) for w in ev.get('wq', []))
+                other = [k for k in range(len(ev.get('wq', []))) if k not in zr and abs(val(ev["len"][k]) * W - (val(ev["wq"][k]) << 64)) > (W << tol)] if W else []
+                o.finding(kind='float-law', ty=ev.get('ft'), symptom='zero-weight-residue' if zr and not other else 'law', hist=ev.get('hist'), show=ev.get('show'),
+                          zero_weight_indices=zr, event={k: v for k, v in ev.items() if k not in ('len', 'wq')},
+                          signature='float-law:%s:%s' % (ev.get('ft'), 'zero-weight-residue' if zr and not other else 'law'))
+        o.samples.append({'kind': 'float tree law event', 'event': json.loads(fl.read_text().splitlines()[0])})
     o.assumptions = [
         'rand 0.10.2 word->value maps (random_range) are measured on a clone of the scripted stream, not re-modelled',
         'two-scale embedding of model weights into wide integer types (DESIGN 2.2) is sound for the alphabets used (len<=6, small<=2 for M=255; sums of small weights stay below M/2)',
